@@ -7,7 +7,7 @@ at that position by a non-negated atom of the query. For a query made of a singl
 exactly the successive leftmost non-overlapping occurrences, and for a single regular expression they cover exactly
 the bytes of the engine's non-empty matches (newline bytes excluded in line mode).
 -/
-import ZoektModel.C02.Lemmas
+import ZoektModel.C02.Lemmas2
 namespace ZoektModel.C02
 open ZoektModel ZoektModel.C03
 
@@ -121,6 +121,53 @@ theorem C02_checkGather (name : Bytes) (atoms : List Atom) :
       simp only [List.mem_filter, Bool.not_eq_true'] at ha hb
       exact hab (by rw [ha.2, hb.2])
     · exact hmem c hc
+
+/-- the order in which the atoms' candidates were collected (the order of the match tree's children) does not matter -/
+theorem gather_order_insensitive (name : Bytes) (cands cands' : List Cand) (hp : cands'.Perm cands) :
+    gatherCands name cands' = gatherCands name cands := by
+  unfold gatherCands
+  rw [hp.length_eq, sortCands_perm_invariant hp]
+
+/-- **C02, single content substring**: when the collected candidates are all the occurrences of a non-empty pattern
+    (every offset at which it occurs, overlapping occurrences included — what the trigram iterator plus verification
+    produce, C01), in any order, the gathered ranges are exactly the successive leftmost non-overlapping occurrences
+    found by a left-to-right scan of the content. -/
+theorem gather_single_substring (name data pat : Bytes) (hp : pat ≠ []) (cands : List Cand)
+    (hc : cands.Perm ((occFrom pat data 0).map fun o => ⟨false, o, pat.length⟩)) (hne : occFrom pat data 0 ≠ []) :
+    gatherCands name cands = (leftmostOcc pat data 0 0).map fun o => ⟨false, o, pat.length⟩ := by
+  rw [gather_order_insensitive name _ _ hc]
+  have hlen : ¬ ((occFrom pat data 0).map fun o => (⟨false, o, pat.length⟩ : Cand)).length = 0 := by
+    simpa using hne
+  simp only [gatherCands, hlen, if_false]
+  rw [sortCands_of_sorted (pairwise_cle_of_lt _ _ (occFrom_sorted pat data 0))]
+  rw [leftmostOcc_eq_greedy pat hp]
+  cases h : occFrom pat data 0 with
+  | nil => exact absurd h hne
+  | cons o r =>
+    simp only [List.map_cons, overlapFilter, filterFrom_eq_greedy, Nat.add_zero, greedyFrom, ge_iff_le, Nat.zero_le,
+      if_true, List.map_map]
+    congr 1
+
+/-- what `occFrom` lists: exactly the offsets at which the pattern occurs -/
+theorem occFrom_spec (pat data : Bytes) (o : Nat) :
+    o ∈ occFrom pat data 0 ↔ o < data.length ∧ pat.isPrefixOf (data.drop o) = true := by
+  rw [mem_occFrom]; simp
+
+/-- **C02, single regular expression (chunk mode)**: the regexp engine's `FindAll` returns matches in increasing
+    order without overlap; gathering such a list returns it unchanged, so the reported ranges are exactly the engine's
+    matches (and in particular cover exactly the bytes of its non-empty matches). -/
+theorem gather_engine_matches_id (name : Bytes) (ms : List Cand) (hne : ms ≠ [])
+    (hs : ms.Pairwise cle) (hd : ms.Pairwise (fun a b => a.fileName = b.fileName → a.off + a.sz ≤ b.off)) :
+    gatherCands name ms = ms := by
+  have hlen : ¬ ms.length = 0 := by simpa using hne
+  simp only [gatherCands, hlen, if_false]
+  rw [sortCands_of_sorted hs]
+  cases ms with
+  | nil => exact absurd rfl hne
+  | cons c r => simp only [overlapFilter]; rw [filterFrom_id c r (chainFrom_of_pairwise c r hd)]
+
+example : gatherCands [] ((occFrom [97, 97] [97, 97, 97, 98, 97, 97] 0).map fun o => ⟨false, o, 2⟩) =
+    [⟨false, 0, 2⟩, ⟨false, 4, 2⟩] ∧ occFrom [97, 97] [97, 97, 97, 98, 97, 97] 0 = [0, 1, 4] := by decide
 
 /-! non-vacuity: candidates of three atoms, one below `not`, with overlaps, a same-offset tie (the longer wins),
     adjacent matches (both kept) and file-name matches (sorted first, never compared with content matches) -/
